@@ -15,26 +15,37 @@ def gen(ctx):
 
 
 def make_script(rng, wrap):
-    vers = [rng.below(2), rng.below(2)]
-    ops = [("ctrl", 0, W.cmd("CMD RXTUNE %d" % F2)), ("ctrl", 0, W.cmd("CMD TXTUNE %d" % F1)),
-           ("ctrl", 1, W.cmd("CMD RXTUNE %d" % F1)), ("ctrl", 1, W.cmd("CMD TXTUNE %d" % F2))]
-    for i in (0, 1):
-        ops.append(("ctrl", i, W.cmd("CMD SETFORMAT %d" % vers[i])))
+    # BTS (+ children) on one side, MS (+ children) on the other; every transceiver of one side is tuned to the other side
+    defs = []
+    if rng.chance(1, 3):
+        defs.append(("127.0.0.1", 5700, 1))
+        if rng.chance(1, 2):
+            defs.append(("127.0.0.1", 5700, 2))
+        if rng.chance(1, 3):
+            defs.append(("127.0.0.1", 6700, 1))
+    n = 2 + len(defs)
+    side = [0, 1] + [0 if d[1] == 5700 else 1 for d in defs]
+    vers = [rng.below(2) for _ in range(n)]
+    ops = []
+    for i in range(n):
+        rx, tx = (F2, F1) if side[i] == 0 else (F1, F2)
+        ops += [("ctrl", i, W.cmd("CMD RXTUNE %d" % rx)), ("ctrl", i, W.cmd("CMD TXTUNE %d" % tx)), ("ctrl", i, W.cmd("CMD SETFORMAT %d" % vers[i]))]
+    for i in range(n):
         ops.append(("ctrl", i, W.cmd("CMD POWERON")))
     fn = (H - rng.range(2, 6)) if wrap else rng.choice([0, 500, rng.below(H - 200)])
     for _ in range(rng.range(15, 70)):
         w = rng.below(12)
-        i = rng.below(2)
+        i = rng.below(n)
         if w == 0:
-            ops.append(("ctrl", i, W.cmd("CMD POWEROFF")))
+            ops.append(("ctrl", rng.choice([i, 0, 0]) if defs else i, W.cmd("CMD POWEROFF")))
         elif w == 1:
-            ops.append(("ctrl", i, W.cmd("CMD POWERON")))
+            ops.append(("ctrl", rng.choice([i, 0]) if defs else i, W.cmd("CMD POWERON")))
         elif w == 2:
             vers[i] = rng.below(2)
             ops.append(("ctrl", i, W.cmd("CMD SETFORMAT %d" % vers[i])))
         elif w < 8:
             ahead = rng.choice([0, 0, 1, 1, 2, 3, 5, -1, -2]) if not wrap else rng.choice([0, 1, 2, 3, 4])
-            f = (fn + ahead) % H if wrap else max(0, fn + ahead)
+            f = (fn + ahead) % H
             v = vers[i] if rng.chance(9, 10) else 1 - vers[i]
             d = W.tx_datagram(v, f, rng.below(8), rng.choice([0, 7]), W.rand_burst(rng, 148), pad=rng.choice([0, 2]))
             if rng.chance(1, 15):
@@ -44,25 +55,31 @@ def make_script(rng, wrap):
             ops.append(("tick", fn))
             fn = (fn + (1 if rng.chance(5, 6) else rng.choice([2, 4]))) % H
     ops.append(("state",))
-    return [], ops
+    return defs, ops
 
 
 def oracle(ctx, script, real):
-    """exactly-once / on-time / stale-only-past / cleared-by-poweroff, from the observations only"""
+    """exactly-once / on-time / stale-only-past / cleared-by-poweroff, from the observations only (any number of transceivers)"""
     defs, ops = script
     cfg, obs, events = real
-    pend = [[], []]        # accepted, not yet accounted: (fn, datagram head)
-    run = [False, False]
+    n = len(cfg)
+    side = [0, 1] + [0 if d[1] == 5700 else 1 for d in defs]
+    pend = [[] for _ in range(n)]        # accepted, not yet accounted: (fn, tn, burst length)
+    run = [False] * n
     for e in events:
         op = e["op"]
         if op[0] == "ctrl":
             toks = bytes(op[2]).decode().strip("\0").split(" ")
             rsp = bytes(e["obs"][3:]).decode().strip("\0").split(" ") if e["obs"][1] == 1 else None
+            i = op[1]
+            aff = [i] + (cfg[i]["children"] if cfg[i]["mgt"] and cfg[i]["idx"] == 0 else [])
             if toks[1] == "POWERON" and rsp and rsp[2] == "0":
-                run[op[1]] = True
+                for j in aff:
+                    run[j] = True
             elif toks[1] == "POWEROFF":
-                run[op[1]] = False
-                pend[op[1]] = []
+                for j in aff:
+                    run[j] = False
+                    pend[j] = []        # power-off discards everything still queued - also on the children it switches off
         elif op[0] == "data" and e["obs"] == [2, 1]:
             d = op[2]
             bl = len(d) - 6
@@ -71,50 +88,57 @@ def oracle(ctx, script, real):
         elif op[0] == "tick":
             fn = op[1]
             if e.get("exc"):
-                ctx.oracle_fail("clock tick raised " + e["exc"], dict(ops=[SC.describe(o) for o in ops]), key="c03-tick-raises")
+                ctx.oracle_fail("clock tick raised " + e["exc"], dict(trx_defs=defs, ops=[SC.describe(o) for o in ops]), key="c03-tick-raises")
                 return
+            o = e["obs"]
+            k = 3
+            for _ in range(o[2]):
+                k += 4 + o[k + 3]
+            ns = o[k]
+            stale = {}
+            for q in range(ns):
+                stale.setdefault(o[k + 1 + 2 * q], []).append(o[k + 2 + 2 * q])
             emitted = {}
             for src, j, dg, remote in e["log"]:
-                emitted.setdefault(src, []).append((dg[1] << 24 | dg[2] << 16 | dg[3] << 8 | dg[4], dg[0] & 7))
-            stale = {}
-            for msg in e["stale"]:
-                import re
-                m = re.match(r"\((.*?)\) Stale TRXD message \(fn=(\d+)\): (.*)$", msg)
-                i = 0 if m.group(1).startswith("BTS") else 1
-                f2 = int(re.search(r"fn=(\d+)", m.group(3)).group(1))
-                stale.setdefault(i, []).append(f2)
-            for i in (0, 1):
+                emitted.setdefault((src, j), []).append((dg[1] << 24 | dg[2] << 16 | dg[3] << 8 | dg[4], dg[0] & 7))
+            dlt = lambda f2: (f2 - fn) % H
+            for i in range(n):
+                peers = [j for j in range(n) if side[j] != side[i] and run[j]]
                 if not run[i]:
-                    if emitted.get(i) or stale.get(i):
-                        ctx.oracle_fail("a powered-off transceiver emitted or reported bursts", dict(ops=[SC.describe(o) for o in ops]), key="c03-idle-emits")
+                    if any(s2 == i for (s2, _) in emitted) or stale.get(i):
+                        ctx.oracle_fail("a powered-off transceiver emitted or reported bursts (bursts queued before a power-off survived it?)",
+                                        dict(tick=fn, trx=i, trx_defs=defs, ops=[SC.describe(x) for x in ops]), key="c03-idle-emits")
                     continue
                 # bursts of odd length are forwarded too, but the recipient's send_msg() refuses them (C13): nothing visible
-                due = [m[:2] for m in pend[i] if m[0] == fn and m[2] in (148, 444)]
-                n_due = len([m for m in pend[i] if m[0] == fn])
-                past = [m[0] for m in pend[i] if m[0] < fn]
-                peer_up = run[1 - i]
-                got = emitted.get(i, [])
-                if peer_up and got != due:
-                    ctx.oracle_fail("bursts put on the air at a tick differ from the queued bursts of that frame (each exactly once, in order)",
-                                    dict(tick=fn, trx=i, ops=[SC.describe(o) for o in ops]), key="c03-emit-exact", expected=due, observed=got)
-                if any(g[0] != fn for g in got):
-                    ctx.oracle_fail("a burst was emitted in another frame than its own", dict(tick=fn, ops=[SC.describe(o) for o in ops]), key="c03-late-or-early")
+                due = [m[:2] for m in pend[i] if dlt(m[0]) == 0 and m[2] in (148, 444)]
+                n_due = len([m for m in pend[i] if dlt(m[0]) == 0])
+                past = [m[0] for m in pend[i] if dlt(m[0]) >= H // 2]
+                for j in peers:
+                    got = emitted.get((i, j), [])
+                    if got != due:
+                        ctx.oracle_fail("bursts put on the air at a tick differ from the queued bursts of that frame (each exactly once, in order)",
+                                        dict(tick=fn, trx=i, peer=j, trx_defs=defs, ops=[SC.describe(x) for x in ops]), key="c03-emit-exact", expected=due, observed=got)
+                    if any(dlt(g[0]) != 0 for g in got):
+                        ctx.oracle_fail("a burst was emitted in another frame than its own", dict(tick=fn, ops=[SC.describe(x) for x in ops]), key="c03-late-or-early")
+                for (s2, j), got in emitted.items():
+                    if s2 == i and j not in peers:
+                        ctx.oracle_fail("burst delivered to a transceiver that is not a running peer", dict(tick=fn, src=i, dst=j), key="c03-wrong-recipient")
                 if sorted(stale.get(i, [])) != sorted(past):
-                    ctx.oracle_fail("stale reports differ from the queued bursts whose frame has passed", dict(tick=fn, trx=i, ops=[SC.describe(o) for o in ops]),
+                    ctx.oracle_fail("stale reports differ from the queued bursts whose frame has passed", dict(tick=fn, trx=i, trx_defs=defs, ops=[SC.describe(x) for x in ops]),
                                     key="c03-stale-exact", expected=sorted(past), observed=sorted(stale.get(i, [])))
-                for f2 in past:
-                    # the frame "has passed" only in the numeric sense: across the wrap the burst's frame is still ahead
-                    if (f2 - fn) % H < H // 2:
+                for f2 in stale.get(i, []):
+                    # across the wrap a burst's frame may be numerically smaller and still ahead of the clock
+                    if dlt(f2) < H // 2:
                         ctx.oracle_fail("a burst queued for a frame after the hyperframe wrap is reported stale before the wrap instead of being sent in its frame",
-                                        dict(tick=fn, burst_fn=f2, ops=[SC.describe(o) for o in ops][:60]), key="c03-hyperframe-wrap-stale")
-                ctx.nontrivial(("tick", n_due, len(past) > 0, len(pend[i]) - n_due - len(past) > 0, fn > H - 8 or fn < 8))
-                pend[i] = [m for m in pend[i] if m[0] > fn]
+                                        dict(tick=fn, burst_fn=f2, ops=[SC.describe(x) for x in ops][:60]), key="c03-hyperframe-wrap-stale")
+                ctx.nontrivial(("tick", n_due, len(past) > 0, len(pend[i]) - n_due - len(past) > 0, fn > H - 8 or fn < 8, cfg[i]["idx"] > 0))
+                pend[i] = [m for m in pend[i] if 0 < dlt(m[0]) < H // 2]
     final = events[-1].get("state")
     if final:
-        for i in (0, 1):
+        for i in range(n):
             if sorted(final[0][i]["q"]) != sorted(m[0] for m in pend[i]):
-                ctx.oracle_fail("bursts still queued at the end differ from the accepted bursts without an outcome (lost or duplicated burst)",
-                                dict(trx=i, ops=[SC.describe(o) for o in ops]), key="c03-conservation", expected=sorted(m[0] for m in pend[i]), observed=sorted(final[0][i]["q"]))
+                ctx.oracle_fail("bursts still queued at the end differ from the accepted bursts without an outcome (lost, duplicated or surviving a power-off)",
+                                dict(trx=i, trx_defs=defs, ops=[SC.describe(x) for x in ops]), key="c03-conservation", expected=sorted(m[0] for m in pend[i]), observed=sorted(final[0][i]["q"]))
 
 
 def race_cases(ctx):
@@ -184,13 +208,13 @@ def run(ctx):
         if crashed:
             ctx.oracle_fail("the clock thread died (%s) when POWEROFF raced a tick of a hopping transceiver" % (states[0][1],),
                             dict(tick=fn, hopping=hop, op=op, queue=q, schedule=sched, trace=trace),
-                            key="c03-fh-race" if (hop and op[0] == "poweroff" and states[0][1] == "AttributeError") else "c03-clock-thread-dies")
+                            key="c03-fh-race" if (hop and op[0] == "poweroff" and states[0][1] == "AttributeError") else "c03-clock-thread-dies")   # c03-fh-race: repaired in /repo, reported again if it returns
             continue
         accepted = len(q) + (1 if op[0] == "arrive" and not rejected else 0)
         if len(emitted) + len(stale) + len(queue) + cleared != accepted or len(set(emitted + stale + queue)) != len(emitted + stale + queue):
             ctx.oracle_fail("a burst was lost or duplicated under this thread schedule", dict(tick=fn, hopping=hop, op=op, queue=q, schedule=sched, trace=trace),
                             key="c03-schedule-conservation")
-        if any(fn_of.get(i) != fn for i in emitted) or any(not fn_of.get(i, fn) < fn for i in stale):
+        if any((fn_of.get(i, fn) - fn) % H != 0 for i in emitted) or any((fn_of.get(i, fn) - fn) % H < H // 2 for i in stale):
             ctx.oracle_fail("a burst was emitted outside its frame / a non-past burst reported stale under this schedule",
                             dict(tick=fn, op=op, queue=q, schedule=sched, trace=trace), key="c03-schedule-on-time")
     ctx.sample(dict(schedule_case=dict(tick=cases[0][0], op=cases[0][3], queue=cases[0][4], schedule=cases[0][5]), trace=obs[0][1]))
